@@ -217,6 +217,14 @@ def runOp (w : World) (body : List String) (masks : List Mask) (ev : Events) : W
       match parseMessage rest with
       | some m => let (w, r) := w0.write m; (w, showResUnit r)
       | none => (w0, "bad-op")
+    | "send" :: rest =>
+      -- `WebSocket::send` is `write` followed by `flush`
+      match parseMessage rest with
+      | some m =>
+        match w0.write m with
+        | (w, .ok ()) => let (w, r) := w.flush; (w, showResUnit r)
+        | (w, r) => (w, showResUnit r)
+      | none => (w0, "bad-op")
     | "can" :: _ => (w0, "ok unit")
     | _ => (w0, "bad-op")
   let calls := w1.t.log.reverse.map showCall
@@ -429,7 +437,9 @@ partial def runCase (lines : Array String) : Array String := Id.run do
       -- gather the implementation's output lines of this op
       let mut j := i + 1
       let mut ev : Events := {}
-      let mut iop : Mon.ImplOp := { body := rest.filter (fun t => !t.startsWith "m="),
+      let body0 := rest.filter (fun t => !t.startsWith "m=")
+      let mut iop : Mon.ImplOp := { body := (if body0.head? == some "send" then "write" :: body0.drop 1 else body0),
+                                    isSend := body0.head? == some "send",
                                     masks := (parseMasks toks).map Mask.toBytes }
       while j < lines.size do
         let t := words lines[j]!
@@ -993,6 +1003,96 @@ def monC04 (c s : TpSide) (drops : List (String × Nat)) : List String :=
   | [] => ["mon C04 ok"]
   | f :: _ => [s!"mon C04 FAIL {f}"]
 
+/-! ### `FrameSocket` cases: the codec model against the real codec, nothing in between -/
+
+def showResFrameOpt : Res (Option Frame) → String
+  | .ok (some f) => "ok frame " ++ showFrame f
+  | .ok none => "ok none"
+  | .err e => "err " ++ showErr e
+  | .panic _ => "panic"
+
+def showResUnitP : Res Unit → String
+  | .ok _ => "ok unit"
+  | .err e => "err " ++ showErr e
+  | .panic _ => "panic"
+
+partial def runFsCase (lines : Array String) : Array String := Id.run do
+  let mut out : Array String := #[]
+  -- `FrameCodec::new(READ_BUF_LEN)`: no write batching, no bound on the write buffer
+  let mut codec : Codec := { maxOut := usizeMax, writeLen := 0 }
+  let mut i := 0
+  while i < lines.size do
+    let line := lines[i]!
+    let toks := words line
+    match toks with
+    | "fcfg" :: r =>
+      out := out.push line
+      match kv r "pre" with
+      | some "none" => pure ()
+      | some h => codec := { codec with inBuf := unhex h }
+      | none => pure ()
+      i := i + 1
+    | "op" :: kind :: rest =>
+      out := out.push line
+      let mut j := i + 1
+      let mut ev : Events := {}
+      while j < lines.size do
+        match words lines[j]! with
+        | "io" :: evs => ev := parseIo evs; j := j + 1
+        | "res" :: _ => j := j + 1
+        | "wire" :: _ => j := j + 1
+        | _ => break
+      i := j
+      let t0 : Transport := { rd := ev.rd, wr := ev.wr, fl := ev.fl }
+      let frameOf : Option Frame := match parseMessage rest with
+        | some (.frame f) => some f
+        | _ => none
+      let (codec', t1, res) : Codec × Transport × String :=
+        match kind, frameOf with
+        | "fread", _ =>
+          let max := match kv rest "max" with
+            | some "none" => none
+            | some n => n.toNat?
+            | none => none
+          let (c, t, r) := codec.readFrame t0 max false true
+          (c, t, showResFrameOpt r)
+        | "fwrite", some f =>
+          let (c, t, r) := codec.bufferFrame t0 f
+          (c, t, showResUnitP r)
+        | "fsend", some f =>
+          match codec.bufferFrame t0 f with
+          | (c, t, .ok ()) =>
+            match c.writeOutBuffer t with
+            | (c, t, .ok ()) =>
+              match t.flush with
+              | (t, .ok) => (c, t, "ok unit")
+              | (t, .err k) => (c, t, "err " ++ showErr (.io k))
+            | (c, t, r) => (c, t, showResUnitP r)
+          | (c, t, r) => (c, t, showResUnitP r)
+        | "fflush", _ =>
+          match codec.writeOutBuffer t0 with
+          | (c, t, .ok ()) =>
+            match t.flush with
+            | (t, .ok) => (c, t, "ok unit")
+            | (t, .err k) => (c, t, "err " ++ showErr (.io k))
+          | (c, t, r) => (c, t, showResUnitP r)
+        | _, _ => (codec, t0, "bad-op")
+      codec := codec'
+      let calls := t1.log.reverse.map showCall
+      let io := if calls.isEmpty then "-" else " ".intercalate calls
+      let io := if t1.exhausted then io ++ " !script-exhausted" else io
+      let io := if !t1.rd.isEmpty || !t1.wr.isEmpty || !t1.fl.isEmpty then io ++ " !events-left" else io
+      out := out.push s!"io {io}"
+      out := out.push s!"res {res}"
+      out := out.push s!"wire {hex t1.accepted}"
+    | tag :: _ =>
+      if tag == "io" || tag == "res" || tag == "wire" then i := i + 1
+      else
+        out := out.push line
+        i := i + 1
+    | [] => i := i + 1
+  return out
+
 partial def runTpCase (lines : Array String) : Array String := Id.run do
   let mut out : Array String := #[]
   let mut cs : TpSide := {}
@@ -1091,7 +1191,9 @@ partial def loop (h : IO.FS.Stream) (out : IO.FS.Stream) (cur : Array String)
     let all := cur.push l
     let isHs := ((all[0]?.getD "").splitOn " ").any fun t => t == "hs-server" || t == "hs-client"
     let isTp := ((all[0]?.getD "").splitOn " ").any fun t => t == "twoparty"
-    for o in (if isHs then Drv.runHsCase all else if isTp then Drv.runTpCase all else Drv.runCase all) do out.putStrLn o
+    let isFs := ((all[0]?.getD "").splitOn " ").any fun t => t == "framesocket"
+    for o in (if isHs then Drv.runHsCase all else if isTp then Drv.runTpCase all else if isFs then Drv.runFsCase all
+              else Drv.runCase all) do out.putStrLn o
     loop h out #[] none
   else
     loop h out (cur.push l) none
